@@ -128,7 +128,7 @@ func errClass(err error) string {
 // attempt runs one schedule; returns the violation (kind, attrs, detail) or "".
 func (j *judge) attempt(steps []xport.ReadStep, rt time.Duration) (string, mon.Attrs, string, bool) {
 	c := j.c
-	out := clientx.Run(c.Client, j.req, xport.Script{Reply: j.reply, Steps: steps, Tail: "deadline"}, clientx.Options{ReadTimeout: rt})
+	out := clientx.Run(c.Client, j.req, xport.Script{Reply: j.reply, Steps: steps, Tail: "deadline"}, clientx.Options{ReadTimeout: rt, Ctor: int(uint64(c.Seed) % 4)})
 	L := len(j.reply)
 	E := j.req.ExpectedResponseLength()
 	a := mon.Attrs{"client": clientx.KindName(c.Client), "fc": int(c.FC), "exception_reply": c.Exc, "delta": E - L}
